@@ -45,3 +45,24 @@ func indexOf(s, sub string) int {
 	}
 	return -1
 }
+
+// TestCorpus runs the same executor on packages regenerated from the repository corpus
+// (time formats other than date-time cannot be told apart by reflection there: time.Time
+// leaves are generated at whole seconds, and documents with date/time formats may
+// legitimately report non-delivery, which the executor tolerates for invalid values only —
+// see the corpus note in checks.d).
+func TestCorpus(t *testing.T) {
+	u := vk.New(t, "C19", "corpus-specs")
+	defer u.Close()
+	if vk.InReplay() {
+		return
+	}
+	specs := c01x.CorpusSpecs(vk.N(120_000, 700_000))
+	const per = 6
+	for i := 0; i < len(specs); i += per {
+		out := c01x.RunBatchOut(u, fmt.Sprintf("corpus%d", i), specs[i:min(i+per, len(specs))], "RunConcurrent", true)
+		if idx := indexOf(out, "WARNING: DATA RACE"); idx >= 0 {
+			u.Report(vk.F("data-race", "the race detector reports a data race in code regenerated from a corpus document:\n%s", out[idx:min(idx+3500, len(out))]), specs[i].Meta.Name)
+		}
+	}
+}
